@@ -8,10 +8,12 @@
 EXTENDS Naturals, Sequences, FiniteSets, SequencesExt, TLC
 CONSTANTS MaxElems, SerMax        \* SerMax stands for u64::MAX
 Uris == {"u1", "u2"}              \* object URIs (rsync)
-Hashes == {"h1", "h2"}
+\* ("self": the hash of the element's own data - an update that republishes what is there, a withdraw of the empty object)
+Hashes == {"h1", "h2", "self"}
 \* object contents: no octets, one, all 256 octet values, 10 kB, and "huge" = 1.5 MB (more than the 1 MB budget of an element's
 \* start tag, well within the 100 MB budget of an element with content); at most one huge object per document, first in the list
-Datas == {"empty", "one", "bin", "big", "huge"}
+\* "vast" = 9 MiB + 5 octets: past any buffer a reader might think generous, a document of its own
+Datas == {"empty", "one", "bin", "big", "huge", "vast"}
 Serials == {0, 1, 2, 5, SerMax - 1, SerMax}
 \* authorities of https URIs: "a" and "A" are the same host in different case, "b" another host, "ax" the host of "a" with
 \* more labels appended, "ap" the host of "a" with a port - both different authorities that merely start like "a"
@@ -43,12 +45,13 @@ Init == /\ kind \in {"notification", "snapshot", "delta"} /\ serial \in {0, 1, S
         /\ elems = <<>> /\ snapAuth \in Auths /\ base \in Auths /\ limit \in {NoneL, 0, 1, 2, 5}
 AddElem ==
     /\ Len(elems) < MaxElems
-    /\ \/ kind = "snapshot" /\ \E u \in Uris, d \in Datas : (d = "huge" => elems = <<>> /\ u = "u1")
+    /\ (elems # <<>> /\ kind # "notification" => elems[1].data # "vast")
+    /\ \/ kind = "snapshot" /\ \E u \in Uris, d \in Datas : (d \in {"huge", "vast"} => elems = <<>> /\ u = "u1")
                                 /\ elems' = Append(elems, [t |-> "publish", uri |-> u, data |-> d])
        \/ kind = "delta" /\ \E u \in Uris, d \in Datas, h \in Hashes, t \in {"publish", "update", "withdraw"} :
-              /\ (d = "huge" => elems = <<>> /\ u = "u1" /\ h = "h1" /\ t # "withdraw")
+              /\ (d \in {"huge", "vast"} => elems = <<>> /\ u = "u1" /\ h = "h1" /\ t # "withdraw")
               /\ elems' = Append(elems, [t |-> t, uri |-> u, data |-> IF t = "withdraw" THEN "empty" ELSE d, hash |-> h])
-       \/ kind = "notification" /\ \E s \in Serials, a \in Auths, h \in Hashes :
+       \/ kind = "notification" /\ \E s \in Serials, a \in Auths, h \in {"h1", "h2"} :
               elems' = Append(elems, [t |-> "delta", serial |-> s, auth |-> a, hash |-> h])
     /\ UNCHANGED <<kind, serial, snapAuth, base, limit>>
 Next == AddElem
